@@ -2,7 +2,9 @@
 
 Per generated hypergraph a batch of requests (components, is_connected, number / largest / node component,
 single-source and all-pairs shortest path lengths, clustering coefficient, to_graph, to_line_graph(s, weights),
-to_bipartite_graph(index=True), to_encapsulation_dag(subset_types)) is run
+to_bipartite_graph(index=True / default), to_encapsulation_dag(subset_types)) is run; hypergraphs may contain EMPTY
+hyperedges (built with add_edge([]) or remove_node_from_edge(..., remove_empty=False)); generated DiHypergraphs
+exercise the directed branch of to_bipartite_graph
   (a) on the real xgi code, where the property's own predicate is evaluated with networkx / brute force on
       graphs built directly from the member lists as the independent second opinion, and
   (b) through the Lean model driver `Drivers/C14.lean`; canonicalised results are compared.
@@ -26,8 +28,13 @@ from ..core import TRUSTED_COMMON, VERIF, Infra, build_and_audit, canon, dec_id,
 DRIVER = "C14"
 WEIGHTS = [None, "absolute", "normalized"]
 SUBSETS = ["all", "immediate", "empirical"]
-EXPECTED_ERR = {"is_connected": "err:IndexError", "largest_cc": "err:ValueError", "node_cc": "err:XGIError",
-                "sssp": "err:IDNotFound", "to_line_graph": "err:XGIError", "to_encapsulation_dag": "err:XGIError"}
+S_VALUES = (1, 2, 3)
+S_NONPOSITIVE = (0, -1)
+# kill-switch: the model driver is interpreted and polynomial (~n^3) in the network size (measured: a 32-node chain
+# with all requests 7 s, 64 nodes 70 s); nothing larger than this is ever sent to it
+MAX_NODES = 12
+MAX_EDGES = 12
+DRIVER_TIMEOUT = 900
 SITE = {"components": "connected_components", "is_connected": "is_connected", "number_cc": "number_connected_components",
         "largest_cc": "largest_connected_component", "node_cc": "node_connected_component",
         "sssp": "single_source_shortest_path_length", "spl": "shortest_path_length",
@@ -66,15 +73,18 @@ def sort_rows(rows, k=1):
     return sorted(rows, key=lambda r: tuple(skey(x) for x in r[:k]))
 
 
-def norm_model(f, v):
+def norm_model(f, v, directed=False, index=True):
     """put a (canon()-ed) model answer into the comparison form (sorting what is set-like)"""
     if f == "to_graph":
         return {"nodes": sorted(v["nodes"], key=skey), "edges": sort_rows([upair(a, b) + [w] for a, b, w in v["edges"]], 2)}
     if f == "to_line_graph":
         return {"nodes": sort_rows(v["nodes"]), "edges": sort_rows([upair(a, b) + [w] for a, b, w in v["edges"]], 2)}
     if f == "to_bipartite_graph":
-        return {"nodes": sorted(v["nodes"]), "edges": sorted(sorted(e) for e in v["edges"]),
-                "nidx": sorted(v["nidx"], key=lambda r: r[0]), "eidx": sorted(v["eidx"], key=lambda r: r[0])}
+        out = {"nodes": sorted(v["nodes"]), "edges": sorted((list(e) if directed else sorted(e)) for e in v["edges"])}
+        if index:
+            out["nidx"] = sorted(v["nidx"], key=lambda r: r[0])
+            out["eidx"] = sorted(v["eidx"], key=lambda r: r[0])
+        return out
     if f == "to_encapsulation_dag":
         return {"nodes": sorted(v["nodes"], key=skey), "edges": sort_rows(v["edges"], 2)}
     return v
@@ -115,9 +125,32 @@ def same(f, r, m):
 # ----------------------------------------------------------------------------- the implementation side
 
 def build_case(c):
+    """the real network of a request: an xgi.Hypergraph (key "net"; empty hyperedges made by add_edge([]) or, with
+    "empty_via": "remove", by add_edge([x]) + remove_node_from_edge(e, x, remove_empty=False)) or an
+    xgi.DiHypergraph (key "dinet", edges = (id, tail, head))"""
+    if "dinet" in c:
+        nodes = [dec_id(x) for x in c["dinet"]["nodes"]]
+        edges = [(dec_id(e), [dec_id(x) for x in t], [dec_id(x) for x in h]) for e, t, h in c["dinet"]["edges"]]
+        D = xgi.DiHypergraph()
+        D.add_nodes_from(nodes)
+        for e, t, h in edges:
+            D.add_edge((t, h), idx=e)
+        return nodes, edges, D
     nodes = [dec_id(x) for x in c["net"]["nodes"]]
     edges = [(dec_id(e), [dec_id(x) for x in ms]) for e, ms in c["net"]["edges"]]
-    return nodes, edges, fn.build(nodes, edges)
+    H = xgi.Hypergraph()
+    H.add_nodes_from(nodes)
+    for e, ms in edges:
+        if not ms and nodes and c.get("empty_via") == "remove":
+            H.add_edge([nodes[0]], idx=e)
+            H.remove_node_from_edge(e, nodes[0], remove_empty=False)
+        else:
+            H.add_edge(ms, idx=e)
+    return nodes, edges, H
+
+
+def graph_kind(G):
+    return type(G).__name__ if type(G) in (nx.Graph, nx.DiGraph, nx.MultiGraph, nx.MultiDiGraph) else "other:" + type(G).__name__
 
 
 def graph_attr(d, key):
@@ -162,12 +195,25 @@ def call_impl(c, H):
         edges = [upair(a, b) + [None if not d else num(graph_attr(d, "weight"))] for a, b, d in G.edges(data=True)]
         return {"nodes": sort_rows(nodes), "edges": sort_rows(edges, 2), "directed": G.is_directed() or G.is_multigraph()}
     if f == "to_bipartite_graph":
-        G, nidx, eidx = xgi.to_bipartite_graph(H, index=True)
-        return {"nodes": sorted([num(n), num(graph_attr(d, "bipartite"))] for n, d in G.nodes(data=True)),
-                "edges": sorted(sorted([num(a), num(b)]) + ([{"attrs": sorted(d)}] if d else []) for a, b, d in G.edges(data=True)),
-                "nidx": sorted(([num(k), enc_id(v)] for k, v in nidx.items()), key=lambda r: r[0]),
-                "eidx": sorted(([num(k), enc_id(v)] for k, v in eidx.items()), key=lambda r: r[0]),
-                "directed": G.is_directed() or G.is_multigraph()}
+        directed = "dinet" in c
+        if c.get("index", True):
+            ret = xgi.to_bipartite_graph(H, index=True)
+            if not (isinstance(ret, tuple) and len(ret) == 3):
+                return {"shape": "index=True did not return (graph, dict, dict): " + type(ret).__name__}
+            G, nidx, eidx = ret
+        else:
+            G = xgi.to_bipartite_graph(H)          # the default: index=False, the graph alone
+            if not isinstance(G, nx.Graph):
+                return {"shape": "index=False did not return a graph: " + type(G).__name__}
+            nidx = eidx = None
+        out = {"nodes": sorted([num(n), num(graph_attr(d, "bipartite"))] for n, d in G.nodes(data=True)),
+               "edges": sorted(([num(a), num(b)] if directed else sorted([num(a), num(b)])) + ([{"attrs": sorted(d)}] if d else [])
+                               for a, b, d in G.edges(data=True)),
+               "kind": graph_kind(G)}
+        if nidx is not None:
+            out["nidx"] = sorted(([num(k), enc_id(v)] for k, v in nidx.items()), key=lambda r: r[0])
+            out["eidx"] = sorted(([num(k), enc_id(v)] for k, v in eidx.items()), key=lambda r: r[0])
+        return out
     if f == "to_encapsulation_dag":
         G = xgi.to_encapsulation_dag(H, subset_types=c["subset_types"])
         bad = [n for n, d in G.nodes(data=True) if d] + [a for a, b, d in G.edges(data=True) if d]
@@ -180,7 +226,7 @@ def call_impl(c, H):
 def strip_flags(v):
     """graph-kind flags are checked by the predicate, not sent by the model"""
     if isinstance(v, dict):
-        return {k: x for k, x in v.items() if k not in ("directed", "digraph", "order")}
+        return {k: x for k, x in v.items() if k not in ("directed", "digraph", "order", "kind")}
     return v
 
 
@@ -254,31 +300,78 @@ def strict_subset_links(edges, kind):
     return out
 
 
-def sequential_filter(edges, order):
-    """what the in-place `empirical_subsets_filter` of the unfixed code returns when it visits the DAG vertices
-    in `order` (the vertex order of the returned DiGraph is that visiting order)"""
-    sets = {e: frozenset(ms) for e, ms in edges}
-    links = set(strict_subset_links(edges, "all"))
-    for x in order:
-        preds = [p for p, q in links if q == x]
-        if preds:
-            mn = min(len(sets[p]) for p in preds)
-            links -= {(p, x) for p in preds if len(sets[p]) != mn}
-        succ = [q for p, q in links if p == x]
-        if succ:
-            mx = max(len(sets[q]) for q in succ)
-            links -= {(x, q) for q in succ if len(sets[q]) != mx}
-    return frozenset(links)
+def line_zero_div(c, edges):
+    """weights="normalized" is |a ∩ b| / min(|a|, |b|): undefined (0/0) exactly when a pair that is linked contains an
+    empty hyperedge, which needs s <= 0; only then is ZeroDivisionError not a violation"""
+    return c["weights"] == "normalized" and c["s"] <= 0 and \
+        any(not m1 or not m2 for (_, m1), (_, m2) in itertools.combinations(edges, 2))
+
+
+def pred_bipartite(c, v, nodes, edges):
+    """to_bipartite_graph: vertices 0..n-1 (bipartite=0) name the nodes and n..n+m-1 (bipartite=1) the hyperedges;
+    Hypergraph: nx.Graph with a link node-edge per incidence; DiHypergraph: nx.DiGraph with node -> edge for every
+    TAIL member and edge -> node for every HEAD member; with index=True the two index dicts name the vertices, with the
+    default index=False the graph alone is returned and vertex i is the i-th node / vertex n+j the j-th edge"""
+    fails = []
+    directed = "dinet" in c
+    if "shape" in v:
+        return [("bipartite-return-shape", v["shape"])]
+    want = "DiGraph" if directed else "Graph"
+    if v.get("kind") != want:
+        fails.append(("graph-kind", f"to_bipartite_graph returned a {v.get('kind')}, not a {want}"))
+    eids = [e[0] for e in edges]
+    if c.get("index", True):
+        nidx = {k: dec_id(x) for k, x in v["nidx"]}
+        eidx = {k: dec_id(x) for k, x in v["eidx"]}
+    else:
+        nidx = {i: n for i, n in enumerate(nodes)}
+        eidx = {len(nodes) + j: e for j, e in enumerate(eids)}
+    part0 = sorted(n for n, b in v["nodes"] if b == 0)
+    part1 = sorted(n for n, b in v["nodes"] if b == 1)
+    if len(part0) + len(part1) != len(v["nodes"]) or set(nidx) & set(eidx):
+        fails.append(("bipartite-flags", f"{v['nodes']}"))
+    if sorted(nidx) != part0 or sorted(map(repr, nidx.values())) != sorted(map(repr, nodes)) or len(set(map(repr, nidx.values()))) != len(nidx):
+        fails.append(("bipartite-node-part", f"index {nidx} part {part0} nodes {nodes}"))
+    if sorted(eidx) != part1 or sorted(map(repr, eidx.values())) != sorted(map(repr, eids)) or len(set(map(repr, eidx.values()))) != len(eidx):
+        fails.append(("bipartite-edge-part", f"index {eidx} part {part1} edges {eids}"))
+    if fails:
+        return fails
+    got = set()
+    for e in v["edges"]:
+        if len(e) != 2:
+            fails.append(("bipartite-link-attrs", f"{e}")); continue
+        a, b = e
+        if a in nidx and b in eidx:
+            got.add(("node->edge", repr(nidx[a]), repr(eidx[b])))
+        elif b in nidx and a in eidx:
+            got.add(("edge->node" if directed else "node->edge", repr(nidx[b]), repr(eidx[a])))
+        else:
+            fails.append(("bipartite-link-within-part", f"{e}"))
+    if directed:
+        exp = {("node->edge", repr(x), repr(e)) for e, t, h in edges for x in t} | \
+              {("edge->node", repr(x), repr(e)) for e, t, h in edges for x in h}
+        cls = "bipartite-directed-links"
+    else:
+        exp = {("node->edge", repr(x), repr(e)) for e, ms in edges for x in ms}
+        cls = "bipartite-links"
+    if got != exp or len(v["edges"]) != len(exp):
+        fails.append((cls, f"links (direction, node, edge) {sorted(got)} vs incidence {sorted(exp)}"))
+    return fails
 
 
 def pred(c, r, nodes, edges):
     """clauses of C14 evaluated on the implementation's answer r; returns [(failure_class, detail)]"""
     f = c["f"]
     fails = []
+    if "dinet" in c:
+        if r["out"] != "ok":
+            return [("raises-" + r["out"][4:], f"{SITE[f]} raised {r['out']} on a DiHypergraph: {r.get('msg', '')}")]
+        return pred_bipartite(c, r["v"], nodes, edges)
     if r["out"] != "ok":
         legit = (f in ("is_connected", "largest_cc") and not nodes) or \
                 (f == "node_cc" and dec_id(c["n"]) not in nodes) or (f == "sssp" and dec_id(c["src"]) not in nodes) or \
-                (f == "to_line_graph" and c["weights"] not in WEIGHTS) or (f == "to_encapsulation_dag" and c["subset_types"] not in SUBSETS)
+                (f == "to_line_graph" and c["weights"] not in WEIGHTS) or (f == "to_encapsulation_dag" and c["subset_types"] not in SUBSETS) or \
+                (f == "to_line_graph" and r["out"] == "err:ZeroDivisionError" and line_zero_div(c, edges))
         if not legit:
             fails.append(("raises-" + r["out"][4:], f"{SITE[f]} raised {r['out']}: {r.get('msg', '')}"))
         return fails
@@ -353,7 +446,7 @@ def pred(c, r, nodes, edges):
         exp_e = []
         for (e1, m1), (e2, m2) in itertools.combinations(edges, 2):
             k = len(set(m1) & set(m2))
-            if k >= s:
+            if k >= s:      # any int s; (s <= 0 links every pair; 0/0 cannot occur here: that case raised and is legit above)
                 exp_e.append(upair(e1, e2) + [None if w is None else (k if w == "absolute" else k / min(len(m1), len(m2)))])
         exp_e = sort_rows(exp_e, 2)
         ok = len(exp_e) == len(v["edges"]) and all(
@@ -364,51 +457,18 @@ def pred(c, r, nodes, edges):
         if not ok:
             fails.append(("line-graph-links", f"s={s} weights={w}: {v['edges']} vs definition {exp_e}"))
     elif f == "to_bipartite_graph":
-        if v.get("directed"):
-            fails.append(("graph-kind", "to_bipartite_graph did not return a simple undirected graph"))
-        nidx = {k: dv(x) for k, x in v["nidx"]}
-        eidx = {k: dv(x) for k, x in v["eidx"]}
-        part0 = sorted(n for n, b in v["nodes"] if b == 0)
-        part1 = sorted(n for n, b in v["nodes"] if b == 1)
-        if len(part0) + len(part1) != len(v["nodes"]) or set(nidx) & set(eidx):
-            fails.append(("bipartite-flags", f"{v['nodes']}"))
-        if sorted(nidx) != part0 or sorted(map(repr, nidx.values())) != sorted(map(repr, nodes)) or len(set(map(repr, nidx.values()))) != len(nidx):
-            fails.append(("bipartite-node-part", f"index {nidx} part {part0} nodes {nodes}"))
-        if sorted(eidx) != part1 or sorted(map(repr, eidx.values())) != sorted(repr(e) for e, _ in edges) or len(set(map(repr, eidx.values()))) != len(eidx):
-            fails.append(("bipartite-edge-part", f"index {eidx} part {part1} edges {[e for e, _ in edges]}"))
-        if not fails:
-            got = set()
-            for e in v["edges"]:
-                if len(e) != 2:
-                    fails.append(("bipartite-link-attrs", f"{e}")); continue
-                a, b = e
-                if a in nidx and b in eidx:
-                    got.add((repr(nidx[a]), repr(eidx[b])))
-                elif b in nidx and a in eidx:
-                    got.add((repr(nidx[b]), repr(eidx[a])))
-                else:
-                    fails.append(("bipartite-link-within-part", f"{e}"))
-            exp = {(repr(x), repr(e)) for e, ms in edges for x in ms}
-            if got != exp or len(v["edges"]) != len(exp):
-                fails.append(("bipartite-links", f"{sorted(got)} vs incidence {sorted(exp)}"))
+        fails += pred_bipartite(c, v, nodes, edges)
     elif f == "to_encapsulation_dag":
         kind = c["subset_types"]
         if not v.get("digraph"):
             fails.append(("graph-kind", "to_encapsulation_dag did not return a DiGraph"))
         if v["nodes"] != sset(e for e, _ in edges):
             fails.append(("dag-vertices", f"{v['nodes']} vs {sset(e for e, _ in edges)}"))
-        if all(ms for _, ms in edges):  # the definition is read for non-empty hyperedges (see assumptions)
-            exp = sort_rows([[enc_id(a), enc_id(b)] for a, b in strict_subset_links(edges, kind)], 2)
-            if v["edges"] != exp:
-                cls = f"{kind}-links-differ-from-definition"
-                if kind == "empirical":
-                    # witness pattern of the known defect: the answer is what filtering in place yields for the
-                    # visiting order the returned DiGraph records; any other wrong answer is a different finding
-                    got = frozenset((dv(a), dv(b)) for a, b in v["edges"])
-                    order = [dv(x) for x in v.get("order", [])]
-                    if sorted(map(repr, order)) == sorted(repr(e) for e, _ in edges) and got == sequential_filter(edges, order):
-                        cls = "empirical-links-depend-on-visit-order"
-                fails.append((cls, f"{v['edges']} vs prescribed {exp}"))
+        # definition: a -> b iff b is a NON-EMPTY strict subset of a (an empty hyperedge is an isolated vertex;
+        # model theorem to_dag_empty_isolated), filtered per subset_types
+        exp = sort_rows([[enc_id(a), enc_id(b)] for a, b in strict_subset_links(edges, kind)], 2)
+        if v["edges"] != exp:
+            fails.append((f"{kind}-links-differ-from-definition", f"{v['edges']} vs prescribed {exp}"))
     return fails
 
 
@@ -417,7 +477,8 @@ def pred(c, r, nodes, edges):
 def requests_for(nodes, edges, rng=None, full=False):
     """the batch of requests for one hypergraph; `full` = every node / source / option, else a sample"""
     net = fn.enc_net(nodes, edges)
-    reqs = [{"f": f} for f in ("components", "is_connected", "number_cc", "largest_cc", "spl", "clustering", "to_graph", "to_bipartite_graph")]
+    reqs = [{"f": f} for f in ("components", "is_connected", "number_cc", "largest_cc", "spl", "clustering", "to_graph")]
+    reqs += [{"f": "to_bipartite_graph", "index": True}, {"f": "to_bipartite_graph", "index": False}]
     pick = list(nodes) if (full or rng is None) else rng.sample(list(nodes), min(2, len(nodes)))
     missing = "zz-missing" if (full or rng is None or rng.random() < 0.3) else None
     for n in pick:
@@ -426,17 +487,79 @@ def requests_for(nodes, edges, rng=None, full=False):
     if missing is not None and missing not in nodes:
         reqs.append({"f": "node_cc", "n": missing})
         reqs.append({"f": "sssp", "src": missing})
-    for s in (1, 2, 3):
+    for s in S_VALUES:
         for w in WEIGHTS:
             reqs.append({"f": "to_line_graph", "s": s, "weights": w})
+    if full or rng is None or rng.random() < 0.3:       # s <= 0: every pair is linked; normalized may be 0/0
+        s0 = S_NONPOSITIVE[0] if (rng is None or rng.random() < 0.7) else S_NONPOSITIVE[1]
+        for w in WEIGHTS:
+            reqs.append({"f": "to_line_graph", "s": s0, "weights": w})
+    if full or rng is None or rng.random() < 0.15:
+        reqs.append({"f": "to_line_graph", "s": 4, "weights": "absolute"})
     for t in SUBSETS:
         reqs.append({"f": "to_encapsulation_dag", "subset_types": t})
     if full or rng is None or rng.random() < 0.2:
         reqs.append({"f": "to_line_graph", "s": 1, "weights": "relative"})
         reqs.append({"f": "to_encapsulation_dag", "subset_types": "none"})
+    via = "remove" if (rng is not None and rng.random() < 0.5) else "add"
     for r in reqs:
         r["net"] = net
+        if any(not ms for _, ms in edges):
+            r["empty_via"] = via
     return reqs
+
+
+def enc_dinet(nodes, edges):
+    return {"nodes": [enc_id(n) for n in nodes],
+            "edges": [[enc_id(e), [enc_id(x) for x in t], [enc_id(x) for x in h]] for e, t, h in edges]}
+
+
+def direqs_for(nodes, edges):
+    """requests on a DiHypergraph: the directed branch of to_bipartite_graph, with and without the index dicts"""
+    net = enc_dinet(nodes, edges)
+    return [{"f": "to_bipartite_graph", "index": True, "dinet": net}, {"f": "to_bipartite_graph", "index": False, "dinet": net}]
+
+
+def gen_dihypergraph(rng, max_nodes=6, max_edges=5, max_size=3):
+    """(nodes, [(eid, tail, head)]): tails and heads drawn independently (may overlap, may be empty, both empty with
+    small probability), isolated nodes, int / str / mixed labels and edge IDs in shuffled insertion order"""
+    k = rng.randint(1, max_nodes)
+    lab = rng.choice(fn.LABELS)(k)
+    rng.shuffle(lab)
+    m = rng.randint(0 if rng.random() < 0.1 else 1, max_edges)
+    eid = rng.choice(fn.EDGE_IDS)(m)
+    edges = []
+    for i in range(m):
+        lo = 0 if rng.random() < 0.2 else 1
+        t = rng.sample(lab, min(k, rng.randint(lo, max_size)))
+        h = rng.sample(lab, min(k, rng.randint(lo, max_size)))
+        if rng.random() < 0.15 and t:
+            h = list(t)                      # tail == head: every member is linked in both directions
+        edges.append((eid[i], t, h))
+    return lab, edges
+
+
+def fresh_edge_id(used, rng):
+    ints = [e for e in used if isinstance(e, int) and not isinstance(e, bool)]
+    if ints:
+        return max(ints) + rng.randint(1, 3)
+    if used:                                  # string IDs only
+        cand = "zz%d" % rng.randint(0, 99)
+        while cand in used:
+            cand += "x"
+        return cand
+    return rng.choice([0, 7, "e"])
+
+
+def with_empty_edges(rng, nodes, edges, p=0.35):
+    """with probability p insert one or two EMPTY hyperedges (fresh IDs) at random positions of the edge list"""
+    if rng.random() >= p:
+        return nodes, edges
+    edges = list(edges)
+    for _ in range(1 if rng.random() < 0.7 else 2):
+        e = fresh_edge_id({x for x, _ in edges}, rng)
+        edges.insert(rng.randint(0, len(edges)), (e, []))
+    return nodes, edges
 
 
 def gen_nested(rng):
@@ -482,7 +605,7 @@ def gen_path(rng):
     return lab, [(eid[j], ms) for j, ms in enumerate(edges) if ms]
 
 
-def gen_any(rng):
+def gen_plain(rng):
     r = rng.random()
     if r < 0.45:
         return fn.gen_hypergraph(rng, max_nodes=7, max_edges=6, max_size=5)
@@ -493,6 +616,10 @@ def gen_any(rng):
     return gen_path(rng)
 
 
+def gen_any(rng):
+    return with_empty_edges(rng, *gen_plain(rng))
+
+
 def variants(nodes, edges):
     """labelled / multi-edge / isolated-node variants of a small-scope hypergraph"""
     k, m = len(nodes), len(edges)
@@ -501,16 +628,20 @@ def variants(nodes, edges):
     if edges:                                             # duplicate the first edge (multi-edge), reversed edge order
         dup = edges + [(m, list(edges[0][1]))]
         yield nodes, [(fn.EDGE_IDS[3](m + 1)[i], ms) for i, (_, ms) in enumerate(dup)][::-1]
+    yield nodes, edges[:1] + [(m, [])] + edges[1:]        # an empty hyperedge in second position
 
 
 # ----------------------------------------------------------------------------- running, shrinking, replay
 
 def is_nontrivial(nodes, edges):
-    return any(len(ms) >= 2 for _, ms in edges)
+    return any(sum(len(ms) for ms in e[1:]) >= 2 for e in edges)
 
 
 def shrink_case(c, cls, budget=150):
-    """greedy: drop edges, then nodes, then members, while the predicate still fails with the same class"""
+    """greedy: drop edges, then nodes, then members (tail / head members for a directed network), while the predicate
+    still fails with the same class"""
+    key = "dinet" if "dinet" in c else "net"
+
     def fails(cand):
         try:
             r, nodes, edges = impl(cand)
@@ -521,50 +652,67 @@ def shrink_case(c, cls, budget=150):
     changed = True
     while changed and budget > 0:
         changed = False
-        net = c["net"]
+        net = c[key]
         for i in range(len(net["edges"]) - 1, -1, -1):
-            cand = copy.deepcopy(c); del cand["net"]["edges"][i]
+            cand = copy.deepcopy(c); del cand[key]["edges"][i]
             budget -= 1
             if fails(cand):
                 c, changed = cand, True; break
         if changed:
             continue
-        used = {json.dumps(x) for _, ms in net["edges"] for x in ms} | {json.dumps(c.get("n")), json.dumps(c.get("src"))}
+        used = {json.dumps(x) for e in net["edges"] for ms in e[1:] for x in ms} | {json.dumps(c.get("n")), json.dumps(c.get("src"))}
         for i in range(len(net["nodes"]) - 1, -1, -1):
             if json.dumps(net["nodes"][i]) in used:
                 continue
-            cand = copy.deepcopy(c); del cand["net"]["nodes"][i]
+            cand = copy.deepcopy(c); del cand[key]["nodes"][i]
             budget -= 1
             if fails(cand):
                 c, changed = cand, True; break
         if changed:
             continue
-        for i, (e, ms) in enumerate(net["edges"]):
-            for j in range(len(ms) - 1, -1, -1):
-                if len(ms) <= 1:
+        for i, e in enumerate(net["edges"]):
+            for part in range(1, len(e)):
+                ms = e[part]
+                for j in range(len(ms) - 1, -1, -1):
+                    if key == "net" and len(ms) <= 1:
+                        break
+                    cand = copy.deepcopy(c); del cand[key]["edges"][i][part][j]
+                    budget -= 1
+                    if fails(cand):
+                        c, changed = cand, True; break
+                if changed:
                     break
-                cand = copy.deepcopy(c); del cand["net"]["edges"][i][1][j]
-                budget -= 1
-                if fails(cand):
-                    c, changed = cand, True; break
             if changed:
                 break
     return c
 
 
 def python_replay(c):
-    args = {k: v for k, v in c.items() if k not in ("f", "net")}
+    args = {k: v for k, v in c.items() if k not in ("f", "net", "dinet", "empty_via")}
+    if "dinet" in c:
+        return (f"nodes={[dec_id(x) for x in c['dinet']['nodes']]!r}; "
+                f"edges={[(dec_id(e), [dec_id(x) for x in t], [dec_id(x) for x in h]) for e, t, h in c['dinet']['edges']]!r}; "
+                f"D=xgi.DiHypergraph(); D.add_nodes_from(nodes); [D.add_edge((t, h), idx=e) for e, t, h in edges]; {SITE[c['f']]}(D, {args})")
     return (f"nodes={[dec_id(x) for x in c['net']['nodes']]!r}; edges={[(dec_id(e), [dec_id(x) for x in ms]) for e, ms in c['net']['edges']]!r}; "
             f"H=xgi.Hypergraph(); H.add_nodes_from(nodes); [H.add_edge(m, idx=e) for e, m in edges]; {SITE[c['f']]}(H, {args})")
+
+
+def check_size(c):
+    net = c.get("dinet") or c.get("net") or {}
+    if len(net.get("nodes", [])) > MAX_NODES or len(net.get("edges", [])) > MAX_EDGES:
+        raise Infra(f"C14 case larger than the size guard ({MAX_NODES} nodes / {MAX_EDGES} edges): not sent to the model driver")
 
 
 def run_batch(ctx, cases, shrink=True):
     """implementation + predicate on every case, then the model; returns the disagreements"""
     results = []
     for c in cases:
+        check_size(c)
         r, nodes, edges = impl(c)
         ctx.evaluations += 1
-        ctx.stats["fn:" + c["f"]] += 1
+        ctx.stats["fn:" + c["f"] + (":directed" if "dinet" in c else "")] += 1
+        if "dinet" not in c and any(not ms for _, ms in edges):
+            ctx.stats["requests_on_hypergraph_with_empty_edge"] += 1
         if r["out"] != "ok":
             ctx.stats["impl_" + r["out"]] += 1
         if is_nontrivial(nodes, edges):
@@ -581,7 +729,7 @@ def run_batch(ctx, cases, shrink=True):
                           "; ".join(d for k, d in pred(small, *impl(small)) if k == cls)[:600] or detail)
         results.append((r, bool(fails)))
         ctx.sample({"request": c, "impl": {k: v for k, v in r.items() if k != "msg"}}, cap=3)
-    resps = run_driver(DRIVER, cases)
+    resps = run_driver(DRIVER, cases, timeout=DRIVER_TIMEOUT)
     dis = []
     for c, (r, failed), m in zip(cases, results, resps):
         if m.get("out") == "bad-op":
@@ -592,7 +740,7 @@ def run_batch(ctx, cases, shrink=True):
         ctx.traces += 1
         mc = canon(m)
         if mc.get("out") == "ok":
-            mc["v"] = norm_model(c["f"], mc["v"])
+            mc["v"] = norm_model(c["f"], mc["v"], directed="dinet" in c, index=c.get("index", True))
         rc = dict(r)
         if rc.get("out") == "ok":
             rc["v"] = strip_flags(rc["v"])
@@ -620,7 +768,7 @@ def load_corpus():
         except Exception:  # noqa
             continue
         for c in (j if isinstance(j, list) else [j.get("case", j)]):
-            if isinstance(c, dict) and "f" in c and "net" in c:
+            if isinstance(c, dict) and "f" in c and ("net" in c or "dinet" in c):
                 out.append({k: v for k, v in c.items() if k != "python"})
     return out
 
@@ -640,21 +788,34 @@ def run(ctx):
     ok = build_and_audit(ctx, "XgiModel.Props.C14", ["XgiModel.C14.Drive"])
     rng = ctx.rng
     ctx.rule = ("hypergraphs from harness/fn.py generators plus nested families, disjoint unions and chains (<= 8 nodes, "
-                "<= 8 edges; isolated nodes, singleton edges, multi-edges, nested edges; int / str / mixed / negative labels and "
-                "edge IDs, shuffled insertion orders); per hypergraph: components, is_connected, number/largest/node component, "
+                "<= 10 edges; isolated nodes, singleton edges, multi-edges, nested edges, and in ~35 % of them one or two EMPTY "
+                "hyperedges built by add_edge([]) or remove_node_from_edge(remove_empty=False); int / str / mixed / negative labels "
+                "and edge IDs, shuffled insertion orders); per hypergraph: components, is_connected, number/largest/node component, "
                 "single-source and all-pairs distances, clustering, to_graph, to_line_graph for s in {1,2,3} x weights in "
-                "{None, absolute, normalized}, to_bipartite_graph(index=True), to_encapsulation_dag for all/immediate/empirical, "
-                "missing node / invalid option requests; non-trivial = distinct (request, result) on a hypergraph with an edge of >= 2 members")
+                "{None, absolute, normalized} (plus s in {0,-1} x weights on ~30 % and s=4), to_bipartite_graph with index=True and "
+                "with the default index=False, to_encapsulation_dag for all/immediate/empirical, missing node / invalid option "
+                "requests; DiHypergraphs (<= 6 nodes, <= 5 edges, overlapping / empty tails and heads): to_bipartite_graph with and "
+                "without index; non-trivial = distinct (request, result) on a network with an edge of >= 2 members")
     cases = load_corpus()
     ctx.stats["corpus_cases"] = len(cases)
     n_h = ctx.n(1000, 12000)
     for _ in range(n_h):
         nodes, edges = gen_any(rng)
         ctx.stats["hypergraphs"] += 1
+        if any(not ms for _, ms in edges):
+            ctx.stats["hypergraphs_with_empty_edge"] += 1
         if len(list(nx.connected_components(reference(nodes, edges)[1]))) > 1:
             ctx.stats["hypergraphs_disconnected"] += 1
         cases += requests_for(nodes, edges, rng)
-    dis = run_batch(ctx, cases)
+    for _ in range(ctx.n(400, 5000)):
+        nodes, edges = gen_dihypergraph(rng)
+        ctx.stats["dihypergraphs"] += 1
+        if any(set(t) & set(h) for _, t, h in edges):
+            ctx.stats["dihypergraphs_with_node_in_tail_and_head"] += 1
+        cases += direqs_for(nodes, edges)
+    dis = []
+    for i in range(0, len(cases), 40000):
+        dis += run_batch(ctx, cases[i:i + 40000])
     if not ctx.quick:
         small = []
         count = 0
@@ -669,14 +830,17 @@ def run(ctx):
             dis += run_batch(ctx, small[i:i + 20000])
         ctx.exhaustive = True
         ctx.extra["exhaustive_space"] = ("correspondence and predicate on every hypergraph with nodes {0,1,2,3} and <= 3 distinct "
-                                         f"non-empty edges ({count} hypergraphs), every node as source / component query, every s, weights, "
-                                         "subset_types; plus a mixed-label (reversed order) and a multi-edge variant of each")
+                                         f"non-empty edges ({count} hypergraphs), every node as source / component query, every s in "
+                                         "{-1..4} sampled as in the rule, weights, subset_types, index; plus a mixed-label (reversed order), "
+                                         "a multi-edge and an empty-hyperedge variant of each")
 
     def search():
         extra = []
         for _ in range(ctx.n(600, 4000)):
             nodes, edges = gen_any(rng)
             extra += requests_for(nodes, edges, rng)
+            if rng.random() < 0.3:
+                extra += direqs_for(*gen_dihypergraph(rng))
         funcs = {c["f"] for c, _, _ in dis}
         if funcs:
             extra = [c for c in extra if c["f"] in funcs] or extra
@@ -689,10 +853,16 @@ def run(ctx):
     fn.conclude(ctx, ok, dis, search)
     ctx.assumptions = [
         "node and edge IDs restricted to int / str (bool, float IDs outside the model)",
-        "hyperedges are non-empty (an empty hyperedge is a subset of every edge but shares no node; the code never links it; not part of the stated quantifier)",
-        "s >= 1 for the line graph (s <= 0 with weights='normalized' divides by the size of an empty edge)",
+        "empty hyperedges are generated and inside model and theorems: vertices of the line graph / bipartite graph / DAG, never "
+        "linked for s >= 1, invisible to components / distances / projection / clustering; the DAG definition used by the predicate "
+        "is 'b is a NON-EMPTY strict subset of a' (what the code does: candidates are found through shared nodes)",
+        "line graph for s <= 0: every pair of hyperedges is linked; weights='normalized' is 0/0 when such a pair contains an empty "
+        "hyperedge - the ZeroDivisionError the code raises there (and only there) is not counted as a violation",
         "'empirical' encapsulation DAG read as: keep a->b iff |a| is minimal among the strict supersets of b and |b| maximal among the strict subsets of a (both filters of empirical_subsets_filter, decided on the unfiltered DAG)",
+        "to_bipartite_graph(index=False) returns no index dicts: vertex i is read as the i-th node of H.nodes and vertex n+j as the j-th edge of H.edges",
+        "directed networks: only to_bipartite_graph has a DiHypergraph branch among the anchored functions; the other functions are checked on Hypergraphs only",
         "numpy/scipy/networkx appear in the model as the pure functions they are documented to be; floats compared with |x - p/q| <= 1e-9 max(1,|p/q|)",
+        f"size guard: no network with more than {MAX_NODES} nodes or {MAX_EDGES} edges is sent to the (interpreted, ~cubic) model driver; driver timeout {DRIVER_TIMEOUT} s, process group killed on timeout (harness/core.py)",
     ]
     return finish(ctx, trusted_base=TRUSTED_COMMON + [
         "networkx (connected_components, single_source_shortest_path_length, clustering) as second opinion inside the predicate",
